@@ -41,7 +41,7 @@ RULE = ('Every entry point of the list below is called through a frame-condition
         'contracts patched in. Non-trivial: the entry point returned normally on a config with '
         '>=2 Buildables; distinct = (entry point, DAG sketch).')
 RULE_ADDITIONS = (' Added by the rounds of seeded changes (DESIGN 9.7): ' +
-                  'input-modified:trim_long_fields | original node edited | fix: shallow copy first; defaultdict arguments, keys present in the first configuration only')
+                  'input-modified:trim_long_fields | original node edited | fix: shallow copy first; defaultdict arguments, keys present in the first configuration only; a tag on an unset parameter whose default is a mutable container')
 RULE = RULE + RULE_ADDITIONS
 ASSUMPTIONS = [
     'opaque mutable leaves are compared by identity only (a configured callable mutating an '
